@@ -297,6 +297,21 @@ def run(model, rep, tier):
     t = " ".join(src(g.node).split())
     rep.check("rdtype_text = rdtype_text.replace('-', '_')" in t and "cls = getattr(mod, rdtype_text)" in t and "if not cls and use_generic: cls = GenericRdata" in t, "R-02.3", g.qualname, where(g, g.node),
               "dispatch by module/class name with GenericRdata fallback", "get_rdata_class dispatch changed", stmt="dispatch-shape")
+    # the class cache is filled under the key that was looked up; only a class imported from the ANY directory is (also) stored under (ANY, rdtype)
+    stores = [n for n in ast.walk(g.node) if isinstance(n, ast.Assign) and isinstance(n.targets[0], ast.Subscript) and src(n.targets[0].value) == "_rdata_classes"]
+    rep.floor("R-02.3-cache-stores", len(stores), 4)
+    gcfg = CFG(g.node, implicit_exc=False)
+    for st in stores:
+        key = " ".join(src(st.targets[0].slice).split())
+        node = next((n for n in gcfg.stmts() if n.ast is st), None)
+        if key in ("(rdclass, rdtype)", "rdclass, rdtype"):
+            rep.ok("R-02.3", g.qualname, where(g, st), "stored under the key that was looked up", stmt="cache-key " + key + " <- " + src(st.value), nontrivial=False)
+        else:
+            anyimp = [n for n in gcfg.stmts() if isinstance(n.ast, ast.Assign) and "import_module" in src(n.ast.value) and "'ANY'" in src(n.ast.value)]
+            okk = "dns.rdataclass.ANY" in key and node is not None and bool(anyimp) and gcfg.dominated_by_set(node.id, [a.id for a in anyimp]) and src(st.value) != "GenericRdata"
+            rep.check(okk, "R-02.3", g.qualname, where(g, st), "stored under (ANY, rdtype) only for a class imported from the ANY directory",
+                      f"`{src(st)[:70]}` stores under `{key}` a class that was not imported from the class-independent (ANY) directory: the first lookup of a type with some class poisons the lookup "
+                      "of every other class (e.g. GenericRdata cached for an IN-only type)", stmt="cache-key " + key + " <- " + src(st.value))
     rep.meta["explanation"] = (
         "Sibling cross-check: for each of ~70 record classes, the helper codecs, 9 SVCB parameter classes and 11 EDNS option classes the writer and the reader are abstractly interpreted into "
         "layout token sequences (struct formats expanded, length fields linked to the data they count, loops/optional tails/helper codecs recognised) and compared. Exact-consumption and dispatch "
@@ -304,6 +319,8 @@ def run(model, rep, tier):
 
 
 WITNESSES = [
+    {"id": "c02-generic-fallback-cached-for-all-classes", "rule": "R-02.3", "file": "dns/rdata.py", "expect": "fires",
+     "old": "        cls = GenericRdata\n        _rdata_classes[(rdclass, rdtype)] = cls", "new": "        cls = GenericRdata\n        _rdata_classes[(dns.rdataclass.ANY, rdtype)] = cls"},
     {"id": "c02-ecs-srclen-zero-defaulted", "rule": "R-02.6", "file": "dns/edns.py", "expect": "fires",
      "old": "            if srclen is None:\n                srclen = 24\n", "new": "            srclen = srclen or 24\n"},
     {"id": "c02-amtrelay-helper-without-origin", "rule": "R-02.5", "file": "dns/rdtypes/ANY/AMTRELAY.py", "expect": "fires",
